@@ -39,7 +39,7 @@ class C05(Prop):
     k2_invs = {'srv', 'idle'}          # the T2 invariants (Inv/AllRun.invs_b) this property answers for on real snapshots
     num = 5
     regions = {'quick': [('core', 90), ('block', 90), ('routers', 40), ('renege', 60), ('preempt', 60), ('sched', 70),
-                         ('sched_block', 50), ('schedpre', 60), ('dyn', 50), ('all', 40), ('renege_preempt', 30), ('spf', 30), ('spf_sched', 70), ('spf_block', 20)]}
+                         ('sched_block', 50), ('schedpre', 60), ('dyn', 50), ('all', 40), ('renege_preempt', 30), ('spf', 30), ('spf_sched', 70), ('spf_block', 20), ('schedpre_block', 100), ('schedpre_tandem', 80)]}
     rule = ('one case = one observed run; non-trivial = at some instant >= 2 customers waited at a node and a service was '
             '(re)started through a path other than a plain arrival (release, unblocking, shift change, interruption restart, '
             'pre-emption); distinct = distinct configuration hashes')
